@@ -221,10 +221,29 @@ def check(ctx):
 def check_config(ctx, F, tag, views=True):
     from core import Relabel
     if views and not isinstance(ctx, Relabel):
+        # (borrowed) "truncated input is reported": a fixed-size value is loaded by reading all of its bytes -- a read of
+        # size_of::<u64>() bytes accepts a two-word value cut after its first word (C06.R2)
+        import c06
+        c06.check_config(Relabel(ctx, {"C06.R2.basic.serializable-load": "C14.R8.fixed-size-load-reads-the-whole-value",
+                                       "C06.R2.basic.vec-load": "C14.R8.vector-load-reads-the-whole-body"}), F, tag)
         # (borrowed) a file cut inside its last element is refused by the map itself: every view constructor bounds what it reads
         # by map.len(), which counts whole elements only behind this guard (C18.R3)
         import c18
         c18.check_config(Relabel(ctx, {"C18.R3.size-multiple-of-8-guard": "C14.R7.map-refuses-a-partial-element"}), F, tag)
+    # a reader is advanced by reading: `seek(Current(n))` past the end of a File or Cursor succeeds, so data skipped by seeking is
+    # never checked to be there (zero-count; the pinned tree seeks only its own output files, to the start)
+    seeks = []
+    for b_ in F.all_bodies():
+        if "::tests::" in b_.name or b_.name.startswith("internal::"):
+            continue
+        for _, t_ in b_.calls():
+            if callee_written(t_) == "std::io::Seek::seek" and len(t_["args"]) == 2:
+                pos = b_.term_of_operand(t_["args"][1])
+                if any(x[0] == "adt" and x[1] == "std::io::SeekFrom" and x[2] in ("Current", "End") for x in subterms(pos)) or \
+                        any(x[0] == "call" and "Read" in str(x[3]) for x in [("call", "", (), tuple(t_["callee"].get("args") or []))]) and "Read" in (F.fns.get(b_.name, [{}])[0].get("sig", "")):
+                    seeks.append((b_.name, loc(t_["sp"])))
+    ctx.ob("C14.R2.no-skip-by-seek", "crate" + tag, "src/", not seeks, "who-may-call",
+           "relative seeks (SeekFrom::Current / End) -- skipping input without reading it cannot detect a truncated input (count must be 0): %s" % seeks[:3], nontrivial=False, positive=True)
     eda = error_discarding_adaptors(F)
     ctx.ob("C14.R1.no-error-discarding-adaptor", "crate" + tag, "src/", not eda, "who-may-call",
            "io::Result turned into a value with the error dropped (ok / unwrap_or* / used as an iterator; count must be 0): %s" % eda[:3], nontrivial=False, positive=True)
